@@ -2,6 +2,7 @@ import BR.Lemmas.LruOrder
 import BR.Bridge.Lru
 import BR.Lemmas.DiskProxy
 import BR.Lemmas.ConcDir
+import BR.Lemmas.ConcLimits
 /-!
 # C17 — max_size_hard_limit refuses overload with a retryable error; reads continue
 
@@ -123,6 +124,45 @@ theorem conc_backlog_exact (M H : Int) (h0 : 0 ≤ M) (h1 : M < 9223372036854775
   intro q hq
   exact hf.t_file q (by simp only [tracked, List.mem_append]; exact Or.inr hq)
 
+/-- **the admission test, in terms of what is on disk, under every interleaving**: in every state
+that uploads, reads, the remover and file corruptions can reach, a positive reservation that passes
+the `max_size` tests is refused for the hard limit exactly when the option is on and
+
+  bytes reserved by requests in flight + block-rounded sizes of the indexed entries
+    + on-disk sizes of the entries evicted but not yet unlinked + the new item  >  the limit
+
+— the middle terms being sums over entries each of which has its file on disk (`conc_directory`,
+`conc_backlog_exact`). -/
+theorem conc_admission_exact (M H : Int) (h0 : 0 ≤ M) (h1 : M < 9223372036854775808) (puts : List (String × List Nat))
+    (gets : List String) (hpos : ∀ p ∈ puts, 0 < p.2.length) (sched : List BR.Conc.Step) (size : Int)
+    (hsz : 0 < size) (hle : size ≤ M)
+    (hfit : size + (BR.Conc.run (BR.Conc.initState M H puts gets) sched).lru.res ≤ M)
+    (hnw : (BR.Conc.run (BR.Conc.initState M H puts gets) sched).lru.cur +
+        (BR.Conc.run (BR.Conc.initState M H puts gets) sched).lru.qsize + size < 18446744073709551616)
+    (hh : H < 9223372036854775808) :
+    (reserve (BR.Conc.run (BR.Conc.initState M H puts gets) sched).lru size).2 = some .insufficientHard ↔
+      (0 < H ∧
+        (BR.Conc.run (BR.Conc.initState M H puts gets) sched).lru.res +
+          sumDisk (BR.Conc.run (BR.Conc.initState M H puts gets) sched).lru.order +
+          sumQueue (BR.Conc.run (BR.Conc.initState M H puts gets) sched).lru.queue + size > H) := by
+  have hc := (BR.Conc.run_finv M H h0 h1 puts gets hpos sched).1
+  have hlim := BR.Conc.run_limits (BR.Conc.initState M H puts gets) sched
+  have hmax : (BR.Conc.run (BR.Conc.initState M H puts gets) sched).lru.maxSize = M := hlim.1
+  have hhard : (BR.Conc.run (BR.Conc.initState M H puts gets) sched).lru.hardLimit = H := hlim.2
+  generalize BR.Conc.run (BR.Conc.initState M H puts gets) sched = s at hc hfit hnw hmax hhard ⊢
+  have hiff := reserve_hard_iff hc.lru size hsz (by rw [hmax]; exact hle) (by rw [hmax]; exact hfit) hnw (by rw [hhard]; exact hh)
+  rw [hiff, hhard, hc.lru.cur_eq, hc.lru.q_eq]
+
+/-- non-vacuity of `conc_admission_exact`: two blocks of cache, a hard limit one byte above; after a
+third upload evicted the first, its file is still on disk and a fourth upload is refused; after the
+remover's unlink it is admitted -/
+def lagging : BR.Conc.State := BR.Conc.run (BR.Conc.initState 8192 8193 [("ac/a", [1]), ("ac/b", [1]), ("ac/c", [1])] [])
+  [.putReserve 0, .putWrite 0 false, .putCommit 0, .putReserve 1, .putWrite 1 false, .putCommit 1,
+   .putReserve 2, .putWrite 2 false, .putCommit 2]
+example : lagging.lru.queue.length = 1 ∧ lagging.files.length = 3 ∧
+    (reserve lagging.lru 1).2 = some .insufficientHard ∧
+    (reserve (BR.Conc.step lagging .unlink).lru 1).2 = none := by decide
+
 /-! non-vacuity: a state in which the refusal happens, and the same request admitted after draining -/
 def busy : Lru := run (init 16384 24576) [.add "cas/a" ⟨1, 8192, "r", false⟩, .add "cas/b" ⟨1, 8192, "r", false⟩,
   .add "cas/c" ⟨1, 8192, "r", false⟩]
@@ -133,6 +173,7 @@ example : (reserve busy 8192).2 = some .insufficientHard ∧ (reserve busy 8192)
 #print axioms hard_limit_refuses_iff
 #print axioms refusal_state_unchanged
 #print axioms conc_backlog_exact
+#print axioms conc_admission_exact
 #print axioms unknown_size_fetch_refused
 #print axioms unknown_size_fetch_hit_was_admitted
 #print axioms retry_after_drain
